@@ -10,11 +10,11 @@ receiver (`recvField`); anything else makes the printer fail.  The meaning of th
 namespace Deep.T
 
 inductive BOp where
-  | and | xor | sub | ne | eq | land | lt
+  | and | xor | sub | ne | eq | land | lt | add
   deriving DecidableEq, Repr
 
 inductive Ty where
-  | userV | bool | key
+  | userV | bool | key | int
   deriving DecidableEq, Repr
 
 inductive Expr where
@@ -64,6 +64,8 @@ inductive Stmt where
   | while (c : Expr) (body : Stmt)
   /-- `for init; c; post { … }` -/
   | for3 (init : Stmt) (c : Expr) (post body : Stmt)
+  /-- `for x := range e { … }` (index only) -/
+  | rangeIdx (x : String) (e : Expr) (body : Stmt)
   | continue
   /-- `x++` -/
   | incr (x : String)
